@@ -42,6 +42,16 @@ def run(ck: Check):
     for data in (b"\xe9(K)", "é(K)x".encode(), b"\xff" * 30 + b"(\n" + b"k\n)\n"):
         for st_ in ("minimize-around", "minimize-balanced"):
             ex.dfs(st_, {}, None, file0=data, atom="char", load=True, stream="non-utf8-char", max_runs=40 if quick else 400)
+    # the experimental move does not change what "done" means (C13 makes no exception for it): runs that finish
+    # normally end at the same fixpoint
+    for tc in small_layouts(4 if quick else 5, alphabet=BR[:5], with_nonred=False):
+        if len(tc[1]) >= 3:
+            for cfg in ({"move": True}, {"move": True, "repeat": "always"}):
+                ex.dfs("minimize-balanced", cfg, tc, stream="balanced-move", max_runs=25 if quick else 250)
+    for parts in ([b"a\n", b"b\n", b"c\n", b"d\n"], [b"{\n", b"a\n", b"b\n", b"}\n", b"c\n"]):
+        tc = (b"", parts, [True] * len(parts), b"")
+        for cfg in ({"move": True}, {"move": True, "repeat": "always"}):
+            ex.dfs("minimize-balanced", cfg, tc, stream="balanced-move", max_runs=300 if quick else 3000)
     # atoms that close one kind of bracket and open another (per-kind balances cancel numerically)
     MIX = [b"x\n", b")[\n", b"](\n", b"){\n", b"}(\n", b"(\n", b"]\n"]
     for tc in small_layouts(3 if quick else 4, alphabet=MIX[: (5 if quick else 7)], with_nonred=False):
